@@ -30,7 +30,7 @@ ASSUMPTIONS = ["for format ids only whitespace-only strings are documented as re
 BADID = [None, "", " ", "a b", "a\tb", "a\nb", " x", "x ", " ", "a b", "x\u00a0", "\u3000x", "x\x1c", "x\u2028y", "\x85x"]
 BADALG = ["sm3", "md4", "sha", "", "  ", "sha 256", "SHA-257", "sha3256", None]
 BADSIZE = [0, -1, -39993, "12", 1.5, "x"]
-BADDATA = ["none", "int", "bytes", "list", "stringio", "empty", "blank", "missing", "dir"]
+BADDATA = ["none", "int", "bytes", "list", "stringio", "empty", "blank", "missing", "dir", "fifo"]
 PIDS = ["p1", "p2", "nobj"]
 
 
@@ -122,7 +122,32 @@ def strategy(tier):
     return _case(tier)
 
 
+def _mkfifo(work):
+    """The path of a named pipe without a writer: not a regular file, hence not data.  A store that OPENS it instead of
+    rejecting it blocks for ever - a helper thread offers a writer after a second so that such a call returns (and is then
+    judged as accepted) instead of hanging the harness; on a store that rejects the path the helper finds no reader and gives up."""
+    import threading
+    import time
+    path = os.path.join(work, "named-pipe")
+    if not os.path.exists(path):
+        os.mkfifo(path)
+
+    def unblock():
+        for _ in range(40):
+            time.sleep(0.25)
+            try:
+                fd = os.open(path, os.O_WRONLY | os.O_NONBLOCK)
+            except OSError:
+                continue       # nobody is reading (ENXIO): the normal case
+            os.close(fd)
+            return
+    threading.Thread(target=unblock, daemon=True).start()
+    return path
+
+
 def _mkdata(kind, work):
+    if kind == "fifo":
+        return _mkfifo(work)
     return {"none": None, "int": 5, "bytes": b"bytes", "list": ["l"], "stringio": io.StringIO("t"), "empty": "",
             "blank": "  ", "missing": os.path.join(work, "no-such-file"), "dir": work}[kind]
 
